@@ -638,28 +638,58 @@ def _method(cnode, name):
     return None
 
 
-def _transport_calls(cnode, fn, depth=1):
-    """(method, args, keywords) of every call on the asyncio transport made by `fn`, in source order: directly
-    (`transport.m(..)`, `self.__transport.m(..)`), through a local alias of it, or -- one level -- inside a private helper
-    of the same class called as `self.__helper(..)` (its calls are inlined at the call site)."""
+def _self_attr_name(node):
     import ast
 
-    aliases = {"transport"} if any(a.arg == "transport" for a in fn.args.args + fn.args.kwonlyargs) else set()
+    if isinstance(node, ast.Attribute) and isinstance(node.value, ast.Name) and node.value.id == "self":
+        return node.attr
+    return None
 
-    def is_transport_attr(v):
-        return isinstance(v, ast.Attribute) and isinstance(v.value, ast.Name) and v.value.id == "self" \
-            and v.attr in ("__transport", "_transport")
 
+def _transport_attrs(cnode):
+    """the attribute(s) of the class that play the role of the asyncio transport: those on which write() / writelines() /
+    sendto() is called, directly or through a local alias (roles, not names)"""
+    import ast
+
+    attrs = set()
+    for fn in cnode.body:
+        if not isinstance(fn, (ast.FunctionDef, ast.AsyncFunctionDef)):
+            continue
+        alias = {t.id: _self_attr_name(n.value) for n in ast.walk(fn) if isinstance(n, ast.Assign) and _self_attr_name(n.value)
+                 for t in n.targets if isinstance(t, ast.Name)}
+        for n in ast.walk(fn):
+            if isinstance(n, ast.Call) and isinstance(n.func, ast.Attribute) and n.func.attr in ("write", "writelines", "sendto"):
+                name = _self_attr_name(n.func.value) or (alias.get(n.func.value.id) if isinstance(n.func.value, ast.Name) else None)
+                if name:
+                    attrs.add(name)
+    return attrs
+
+
+def _transport_calls(cnode, fn, depth=1):
+    """(method, args, keywords) of every call on the asyncio transport made by `fn`, in source order: on the attribute
+    that plays the transport's role, through a local alias of it or the parameter it is initialised from, or -- one
+    level -- inside a private helper of the same class called as `self.__helper(..)` (inlined at the call site)."""
+    import ast
+
+    tattrs = _transport_attrs(cnode)
+    if len(tattrs) != 1:
+        raise _Outside(f"{cnode.name}: cannot identify the transport attribute by its role")
+    aliases = set()
     for node in ast.walk(fn):
-        if isinstance(node, ast.Assign) and len(node.targets) == 1 and isinstance(node.targets[0], ast.Name) \
-                and is_transport_attr(node.value):
-            aliases.add(node.targets[0].id)
+        if isinstance(node, ast.Assign) and len(node.targets) == 1:
+            tgt, val = node.targets[0], node.value
+            if isinstance(tgt, ast.Name) and _self_attr_name(val) in tattrs:
+                aliases.add(tgt.id)                       # local = self.<transport>
+            elif _self_attr_name(tgt) in tattrs and isinstance(val, ast.Name):
+                aliases.add(val.id)                       # self.<transport> = parameter
+        elif isinstance(node, ast.AnnAssign) and _self_attr_name(node.target) in tattrs and isinstance(node.value, ast.Name):
+            aliases.add(node.value.id)
     out = []
     calls = sorted((n for n in ast.walk(fn) if isinstance(n, ast.Call) and isinstance(n.func, ast.Attribute)),
                    key=lambda n: (n.lineno, n.col_offset))
     for node in calls:
         v = node.func.value
-        if is_transport_attr(v) or (isinstance(v, ast.Name) and v.id in aliases):
+        if _self_attr_name(v) in tattrs or (isinstance(v, ast.Name) and v.id in aliases):
             out.append((node.func.attr, node.args, node.keywords))
         elif isinstance(v, ast.Name) and v.id == "self" and node.func.attr.startswith("_") and depth > 0:
             helper = _method(cnode, node.func.attr)
